@@ -322,6 +322,10 @@ def scripts(tier, seed, scale=1):
                 for v in ("new text", "x", ""):
                     h = hx(v) if v else "-"
                     out.append(("sonly:%s:%s:%s" % (k.name, n, h), new + pre + ["y sets 0 %s %s" % (nm(n), h), "y get 0 %s" % nm(n), "y dump 0"]))
+                    # a counted vector: a slice of a longer text, the whole text, the empty slice
+                    if v:
+                        for cnt in sorted(set((0, 1, len(v) // 2, len(v) - 1, len(v)))):
+                            out.append(("vec:%s:%s:%s:%d" % (k.name, n, h, cnt), new + pre + ["y setvec 0 %s %s %d" % (nm(n), h, cnt), "y get 0 %s" % nm(n), "y dump 0"]))
                     for op in ("set", "sets"):
                         for fl in (1, 2):
                             for with_pre in (True, False):
